@@ -1,7 +1,7 @@
 /-
 Model of /repo/v2/tokenizer.go: `tokenizeStream` (S0 read loop with the
 1024-byte buffer and 4-byte carry-over; S1a rune scan with obuf / linebuf /
-line / deferredEOL / deferredWord; S1b per-line processing: stringifyLineBuf,
+line / deferredEOL / deferredLines; S1b per-line processing: stringifyLineBuf,
 cleanupToken, header, normalizeToken).
 
 External library behaviour is a parameter (`Env`): Unicode classes, ToLower,
@@ -114,7 +114,8 @@ structure State where
   linebuf : List Word := []
   line : Nat := 1
   deferredEOL : Bool := false
-  deferredWord : Bool := false
+  /-- hyphenated line breaks inside the word in progress, settled when the word ends -/
+  deferredLines : Nat := 0
   doc : Doc := {}
 deriving Repr, BEq, DecidableEq
 
@@ -142,24 +143,25 @@ def step (E : Env) (normalize : Bool) (s : State) (r : Rune) : State :=
       let doc := appendLine E normalize s.doc s.line linebuf
       let obuf := if linebuf ≠ [] then [] else s.obuf
       let doc := if normalize then doc else { doc with toks := doc.toks ++ [{ word := [nl], line := s.line }] }
-      -- `line++`, and once more for the deferred line break of a hyphen-joined word that ends
-      -- this line (`if deferredWord { deferredWord = false; line++ }`)
-      { s with obuf := obuf, linebuf := [], deferredWord := false,
-               line := s.line + 1 + (if s.deferredWord then 1 else 0), doc := doc }
+      -- `line++`; a pending hyphenated line break followed by this (empty) line is counted too
+      -- (`if deferredEOL { deferredEOL = false; deferredLines++ }`), and every deferred line break
+      -- of a word that ends this line is settled (`line += deferredLines; deferredLines = 0`)
+      { s with obuf := obuf, linebuf := [], deferredEOL := false, deferredLines := 0,
+               line := s.line + 1 + (if s.deferredEOL then 1 else 0) + s.deferredLines, doc := doc }
   else if s.obuf = [] then startOrSkip E normalize s r
   else if E.isSpace r then
     if s.deferredEOL then s
     else
       let linebuf := s.linebuf ++ [flushWord E s.obuf]
       let s1 : State :=
-        if s.deferredWord then
-          { s with linebuf := [], deferredWord := false, line := s.line + 1,
+        if s.deferredLines > 0 then
+          { s with linebuf := [], deferredLines := 0, line := s.line + s.deferredLines,
                    doc := appendLine E normalize s.doc s.line linebuf }
         else { s with linebuf := linebuf }
       -- obuf = make([]byte, 0); the rune is then re-read with an empty obuf
       startOrSkip E normalize { s1 with obuf := [] } r
   else
-    let s1 := if s.deferredEOL then { s with deferredEOL := false, deferredWord := true } else s
+    let s1 := if s.deferredEOL then { s with deferredEOL := false, deferredLines := s.deferredLines + 1 } else s
     match E.punct r with
     | some rep => { s1 with obuf := s1.obuf ++ rep.map E.toLower }
     | none => { s1 with obuf := s1.obuf ++ [E.toLower r] }
@@ -289,7 +291,8 @@ EOL token `[nl]`): re-emit the words line by line. -/
 def renderLoop : Nat → List Tok → List Rune
   | _, [] => []
   | prev, t :: ts =>
-    (if t.line = prev + 1 then [nl] else []) ++
+    -- `for l := prevLine; l < t.Line; l++ { buf.WriteString(eol) }`
+    List.replicate (t.line - prev) nl ++
     (if t.word ≠ [nl] then (if t.line = prev then [32] else []) ++ t.word else []) ++
     renderLoop t.line ts
 
@@ -319,6 +322,11 @@ def StepOne : Nat → List Tok → Prop
   | _, [] => True
   | prev, t :: ts => (t.line = prev ∨ t.line = prev + 1) ∧ StepOne t.line ts
 
+/-- token lines never decrease from token to token -/
+def Mono : Nat → List Tok → Prop
+  | _, [] => True
+  | prev, t :: ts => prev ≤ t.line ∧ Mono t.line ts
+
 /-- words of a line joined by single blanks -/
 def joinBlank : List Word → List Rune
   | [] => []
@@ -327,7 +335,7 @@ def joinBlank : List Word → List Rune
 
 /-- no hyphenated line break is ever pending while scanning `rs` -/
 def NoDefer (E : Env) (rs : List Rune) : Prop :=
-  ∀ p, p <+: rs → (scanRunes E false p).deferredEOL = false ∧ (scanRunes E false p).deferredWord = false
+  ∀ p, p <+: rs → (scanRunes E false p).deferredEOL = false ∧ (scanRunes E false p).deferredLines = 0
 
 /-- an EOL token is the last token of its line: the token after it is on the next line -/
 def EolLast : List Tok → Prop
